@@ -662,7 +662,7 @@ TECHNIQUE = {
     "C12": "runtime monitoring: registry model over generated metadata in many short-lived processes; unique-value history rule under the serial scheduler",
     "C14": "runtime monitoring: per-thread belief monitors; shared-cache history checker; single-thread counterfactual replay",
     "C15": "runtime monitoring: exact counter comparison after every operation; conservation law at quiescence after concurrent phases",
-    "C17": "runtime monitoring: serial randomised scheduler on a hooked lock_api (deadlock = no enabled thread) + free-running jitter with wait-for-cycle diagnosis; Miri many-seeds in the thorough tier",
+    "C17": "runtime monitoring: serial randomised scheduler on a hooked lock_api (deadlock = no enabled thread) + free-running jitter with wait-for-cycle diagnosis; sequential monitor with re-entrant bodies (a thread about to block on a lock it holds is reported by the lock hook); Miri many-seeds in the thorough tier",
     "C18": "runtime monitoring: concurrent phases under the serial scheduler / jitter, then value checks, quiescence bounds and eviction/expiry/invalidation probes; Miri and ThreadSanitizer in the thorough tier",
     "C19": "translation validation by differential execution: generated corpus vs model configured from the generator's record (L2) against the same model at core level (L1); compile oracle for invalid attribute lists",
     "C20": "runtime monitoring: hand-polled futures; lock-held-at-Pending check from the hooked lock_api; model of a call that has only performed its lookup; Miri in the thorough tier",
